@@ -49,7 +49,7 @@ ROUTE = [0]
 THIN = [-1]
 
 
-def thin_event(darsia, rng, tid, m1, m2, big=False, force=None):
+def thin_event(darsia, rng, tid, m1, m2, big=False, force=None, mscale=1.0):
     n = len(m1)
     # (orientation of the chain: every axis of 1-D, 2-D and 3-D grids in turn)
     THIN[0] += 1
@@ -72,8 +72,10 @@ def thin_event(darsia, rng, tid, m1, m2, big=False, force=None):
     e = {"tid": tid, "op": "thin", "n": n, "shape": list(shape), "h": h, "a": a, "m1": list(m1), "m2": list(m2), "mode": mode, "method": method, "mob": mob, "raised": 0, "d2": -1,
          "gauss6": -1, "reg": reg, "cls": "vanishing-flux:default-regularization" if (method == "newton" and zface and reg == "default") else "regular"}
     try:
-        img1, img2 = make_images(darsia, shape, [float(x) for x in hs], np.array(m1, dtype=float).reshape(shape), np.array(m2, dtype=float).reshape(shape))
+        img1, img2 = make_images(darsia, shape, [float(x) for x in hs], mscale * np.array(m1, dtype=float).reshape(shape), mscale * np.array(m2, dtype=float).reshape(shape))
         idt = rng.choice(["float64", "float64", "uint8", "uint16", "int64", "float32"])     # integer masses in the pixel types images come in
+        if mscale != 1.0:
+            idt = "float64"
         if max(max(m1), max(m2)) > 250:
             idt = rng.choice(["float64", "int64"])
         e["imgdtype"] = idt
@@ -83,7 +85,7 @@ def thin_event(darsia, rng, tid, m1, m2, big=False, force=None):
         extra = {"num_iter": 8}
         if reg != "default":
             extra["regularization"] = float(reg)
-        d = float(solve(darsia, img1, img2, method, mode, mob, extra=extra))
+        d = float(solve(darsia, img1, img2, method, mode, mob, extra=extra)) / mscale      # (the distance is homogeneous in the masses)
         e["d2"] = int(round(2 * d)) if np.isfinite(d) and abs(d) < 1e8 and abs(2 * d - round(2 * d)) <= 1e-5 * (1 + abs(2 * d)) else -1
         e["d_6"] = d6(d) if abs(d) < 2000 else -1
         if mode == "rt":
@@ -405,6 +407,11 @@ def run(ck, replay=None):
         m1_[0] += 1
         m2_[-1] += 1
         events.append(thin_event(darsia, rng, f"thinnear:{k_}", m1_, m2_, force=(["cell", "subcell", "rt"][k_ % 3], ["newton", "bregman"][(k_ // 3) % 2])))
+    # masses of unusual magnitude (densities of order 1e-9 and 1e6 - powers of two, so that the arithmetic stays exact)
+    for k_ in range(8):
+        m1_, m2_ = ([2, 0, 1, 0], [0, 2, 0, 1]) if k_ % 2 == 0 else ([1, 3, 0], [0, 1, 3])
+        events.append(thin_event(darsia, rng, f"thinscale:{k_}", m1_, m2_, force=(["cell", "subcell", "rt", "cell"][k_ % 4], ["newton", "bregman"][(k_ // 2) % 2]),
+                                 mscale=[2.0 ** -30, 2.0 ** 20][(k_ // 4) % 2]))
     tick("sign-chains")
     for i in range(3 if quick else 42):    # ~5-15 s each (six solver runs of up to 60 iterations)
         events.append(relations_event(darsia, rng, f"rel:{i}"))
